@@ -7,6 +7,8 @@ use super::encoding::Encoding;
 
 pub struct Decoder<R> {
     inner: R,
+    // Bytes that were consumed while looking for a BOM but are not part of one
+    head: Vec<u8>,
     read_buf: Vec<u8>,
     // Only used for UTF-16/invalid UTF-8 encoded data
     decode_buf: String,
@@ -15,41 +17,63 @@ pub struct Decoder<R> {
 
 impl<R: BufRead> Decoder<R> {
     pub fn new(mut inner: R) -> IoResult<Self> {
+        let (encoding, head) = Self::read_bom(&mut inner)?;
+
         Ok(Self {
-            encoding: Self::read_bom(&mut inner)?,
+            encoding,
+            head,
             read_buf: Vec::new(),
             decode_buf: String::new(),
             inner,
         })
     }
 
-    fn read_bom(reader: &mut R) -> IoResult<Encoding> {
-        let buf = loop {
+    fn read_bom(reader: &mut R) -> IoResult<(Encoding, Vec<u8>)> {
+        // The reader may provide less than three bytes at a time so the first
+        // bytes are gathered across multiple reads.
+        let mut head = Vec::with_capacity(3);
+
+        while head.len() < 3 {
             let available = match reader.fill_buf() {
                 Ok(n) => n,
                 Err(ref err) if err.kind() == ErrorKind::Interrupted => continue,
                 Err(err) => return Err(err),
             };
 
-            let len = available.len();
-
-            if len >= 3 || len == 0 {
-                break available;
+            if available.is_empty() {
+                break;
             }
 
+            let len = available.len().min(3 - head.len());
+            head.extend_from_slice(&available[..len]);
             reader.consume(len);
-        };
+        }
 
-        let (encoding, consumed) = Encoding::from_bom(buf);
-        reader.consume(consumed);
+        let (encoding, consumed) = Encoding::from_bom(&head);
+        head.drain(..consumed);
 
-        Ok(encoding)
+        Ok((encoding, head))
+    }
+
+    /// Appends bytes up to and including the next `b'\n'` to `read_buf` and
+    /// returns the amount of appended bytes.
+    fn read_until_newline(&mut self) -> IoResult<usize> {
+        if let Some(i) = self.head.iter().position(|&byte| byte == b'\n') {
+            self.read_buf.extend(self.head.drain(..=i));
+
+            return Ok(i + 1);
+        }
+
+        let len = self.head.len();
+        self.read_buf.append(&mut self.head);
+
+        Ok(len + self.inner.read_until(b'\n', &mut self.read_buf)?)
     }
 
     pub fn read_line(&mut self) -> IoResult<Option<&str>> {
         self.read_buf.clear();
 
-        if self.inner.read_until(b'\n', &mut self.read_buf)? == 0 {
+        if self.read_until_newline()? == 0 {
             return Ok(None);
         }
 
